@@ -133,6 +133,7 @@ func runOnce(c Case, watchdog time.Duration) (outcome, error) {
 		}
 	}
 	startReturned := false
+	abandon := false // a second Start was accepted: the run is beyond repair, report what was seen
 	stepsAfter := 0
 	launched := 0
 	rng := lib.NewRng(c.Seed ^ 0x5bd1e995)
@@ -167,11 +168,22 @@ func runOnce(c Case, watchdog time.Duration) (outcome, error) {
 				}
 			}
 			if startClass == "ok" && c.Start2 {
+				// a refused Start returns at once; an accepted one would park at its first point
 				r := "ok"
-				if dastard.Start(src.DS, qreq, 4, 16) != nil {
-					r = "err"
+				res := make(chan error, 1)
+				go func() { res <- dastard.Start(src.DS, qreq, 4, 16) }()
+				select {
+				case err := <-res:
+					if err != nil {
+						r = "err"
+					}
+				case <-time.After(500 * time.Millisecond):
+					abandon = true
 				}
 				s.Record(sched.Event{Kind: "obs", Name: "start2", Val: r})
+				if abandon {
+					break
+				}
 			}
 			if startClass == "ok" && c.Write && s.ParkedAt("core:before-select") {
 				tmp, _ = os.MkdirTemp("", "verif_c10_")
